@@ -18,6 +18,15 @@ Definition run_check (n : netlist) (c : sx) : res sx :=
   | A "C13" => Ok (L [A "C13"; fails_to_sx (chk_C13 n)])
   | A "C14" => Ok (L [A "C14"; fails_to_sx (chk_C14 n)])
   | L [A "C01"; exp] => do exp <- sx_listof sx_expected exp; Ok (L [A "C01"; fails_to_sx (chk_C01 n exp)])
+  | L [A "C04"; L [m; nn; atts]; exp] =>
+      do m <- sx_Z m; do nn <- sx_Z nn;
+      do atts <- sx_listof (fun x => match x with
+                                     | L [A nm; i; j; q] => do i <- sx_Z i; do j <- sx_Z j; do q <- sx_Z q;
+                                                            Ok (nm, ((i, j), q))
+                                     | _ => Err "attachment expected"
+                                     end) atts;
+      do exp <- sx_listof sx_expected exp;
+      Ok (L [A "C04"; fails_to_sx (chk_C04 n {| gr_m := m; gr_n := nn; gr_att := atts |} exp)])
   | L [A "C07"; names] => do names <- sx_listof sx_str names; Ok (L [A "C07"; fails_to_sx (chk_C07 n names)])
   | _ => Err "unknown check"
   end.
